@@ -120,7 +120,9 @@ Inductive entry : Type :=
 | EUnmarshal | EMarshal | EDecode | EStaticOrder | EForwardref
 | ECodec      (* repaired code: the one resolution in front of codec's cache *)
 | ECodecM     (* code before the repair: codec -> marshaller(t=t) -> static_order *)
-| ECodecU.    (* code before the repair: codec -> unmarshaller(t=t) -> static_order *)
+| ECodecU     (* code before the repair: codec -> unmarshaller(t=t) -> static_order *)
+| EDecodePre  (* decode -> codecs.isbyteslike -> forwardref: the reference is evaluated once before unmarshal *)
+| ECodecPost. (* code before the repair: codec -> codecs.isbyteslike -> forwardref, after both routines *)
 
 Record lib : Type := {
   l_pkg : string;                    (* frames.PKG_NAME *)
@@ -373,6 +375,14 @@ Section Resolver.
         end
     end.
 
+  (* codecs.isbyteslike(t): a str is turned into a reference (from THIS stack) and evaluated; a reference is
+     evaluated; nothing is memoised here *)
+  Definition bytes_probe (s : state) (st : list frame) (t : key) : state * res obj :=
+    match t with
+    | KStr x => let '(s1, fr) := forwardref s st x in (s1, evaluate fr)
+    | KRef n m => (s, evaluate (n, m))
+    end.
+
   Definition codec (s : state) (ust : list frame) (t : key) : state * res (obj * obj) :=
     let '(s0, t0) := qualify s (l_chain L ECodec ++ ust) t in
     match find key_eqb t0 (m_cd s0) with
@@ -383,7 +393,11 @@ Section Resolver.
         | (s1, Ok om) =>
             match unmarshaller s1 (l_chain L ECodecU ++ ust) t0 true with
             | (s2, Err e) => (s2, Err e)
-            | (s2, Ok ou) => (set_cd s2 ((t0, (om, ou)) :: m_cd s2), Ok (om, ou))
+            | (s2, Ok ou) =>
+                match bytes_probe s2 (l_chain L ECodecPost ++ ust) t0 with
+                | (s3, Err e) => (s3, Err e)
+                | (s3, Ok _) => (set_cd s3 ((t0, (om, ou)) :: m_cd s3), Ok (om, ou))
+                end
             end
         end
     end.
@@ -405,8 +419,13 @@ Section Resolver.
     | OCall e r ust =>
         let st := l_chain L e ++ ust in
         match e with
-        | EUnmarshal | EDecode | ECodecU =>
+        | EUnmarshal | ECodecU | EDecodePre | ECodecPost =>
             let '(s1, x) := unmarshaller s st (key_of r) false in (s1, one x)
+        | EDecode =>
+            match bytes_probe s (l_chain L EDecodePre ++ ust) (key_of r) with
+            | (s0, Err e) => (s0, RErr e)
+            | (s0, Ok _) => let '(s1, x) := unmarshaller s0 st (key_of r) false in (s1, one x)
+            end
         | EMarshal | ECodecM =>
             let '(s1, x) := marshaller s st (key_of r) false in (s1, one x)
         | EStaticOrder =>
@@ -414,7 +433,7 @@ Section Resolver.
         | EForwardref =>
             match r with
             | RStr x => let '(s1, fr) := forwardref s st x in (s1, RRef (fst fr) (snd fr) (evaluate fr))
-            | RFwd n m => (s, RRef n m (evaluate (n, m)))
+            | RFwd _ _ => (s, RErr EUnmodelled)   (* refs.forwardref takes a text or a type, not a reference *)
             end
         | ECodec =>
             match codec s ust (key_of r) with
@@ -448,4 +467,6 @@ Definition skipped (pkg : string) (f : frame) : bool :=
   | Some m => String.eqb m "" || internal pkg m
   | None => true
   end.
-Definition lib_ok (L : lib) (e : entry) : bool := forallb (skipped (l_pkg L)) (l_chain L e).
+Definition lib_ok (L : lib) (e : entry) : bool :=
+  forallb (skipped (l_pkg L)) (l_chain L e)
+  && match e with EDecode => forallb (skipped (l_pkg L)) (l_chain L EDecodePre) | _ => true end.
